@@ -42,6 +42,11 @@ type serverSocket struct {
 	closeOnce sync.Once
 	debug     Debugger
 
+	// Started when the connection handlers are about to run, finished when they have returned.
+	// Packets for this socket wait for it (see dispatch.go), so that the event handlers that
+	// are registered inside a connection handler are in place for the first packets.
+	connectionSlot *dispatchSlot
+
 	eventHandlers         *eventHandlerStore
 	errorHandlers         *handlerStore[*ServerSocketErrorFunc]
 	disconnectingHandlers *handlerStore[*ServerSocketDisconnectingFunc]
@@ -65,6 +70,8 @@ func newServerSocket(
 		parser:  parser,
 		acks:    make(map[uint64]*ackHandler),
 		debug:   server.debug.WithContext("[sio/server] Socket (nsp: `" + nsp.Name() + "`)"),
+
+		connectionSlot: newDispatchSlot(),
 
 		eventHandlers:         newEventHandlerStore(),
 		errorHandlers:         newHandlerStore[*ServerSocketErrorFunc](),
@@ -123,6 +130,8 @@ func (s *serverSocket) Connected() bool {
 
 // release is called right before user code (middlewares, handlers) is entered. See serverConn.onParserFinish.
 func (s *serverSocket) onPacket(header *parser.PacketHeader, eventName string, decode parser.Decode, release func()) error {
+	s.connectionSlot.wait()
+
 	switch header.Type {
 	case parser.PacketTypeEvent, parser.PacketTypeBinaryEvent:
 		var (
